@@ -64,13 +64,23 @@ def gen_stream(rnd, n, kind):
                 else Q(1, rnd.randrange(1, 9) * 10 ** rnd.choice([0, 20])) for _ in range(n)]
     if kind == "fractions":
         return [Fraction(rnd.randrange(-999, 999), rnd.randrange(1, 99)) for _ in range(n)]
+    if kind == "mean-insert":
+        out, tot = [], Fraction(0)
+        for i in range(n):
+            if i >= 2 and i % 3 == 2:
+                v = Q(tot / i)               # exactly the running mean of everything seen so far
+            else:
+                v = Q(rnd.randrange(-60, 60), rnd.choice([1, 2, 3]))
+            out.append(v)
+            tot += v.f
+        return out
     if kind == "repeated":
         pool = [Q(rnd.randrange(-9, 9), 2) for _ in range(3)]
         return [rnd.choice(pool) for _ in range(n)]
     raise ValueError(kind)
 
 
-KINDS = ["random", "ints", "negative", "constant", "zeros", "monotone", "alternating", "huge-tiny", "fractions", "repeated"]
+KINDS = ["random", "ints", "negative", "constant", "zeros", "monotone", "alternating", "huge-tiny", "fractions", "repeated", "mean-insert"]
 
 
 def fr(v):
@@ -79,7 +89,7 @@ def fr(v):
 
 def main(run):
     from ixai.utils.tracker import WelfordTracker, ExponentialSmoothingTracker
-    run.rule = ("streams of exact rationals (10 value patterns x lengths 0..256, thorough to 4096) pushed through the shipped "
+    run.rule = ("streams of exact rationals (11 value patterns (incl. values equal to the running mean) x lengths 0..256, thorough to 4096) pushed through the shipped "
                 "WelfordTracker / ExponentialSmoothingTracker update code; after every update mean, population variance, N and "
                 "sum alpha(1-alpha)^(n-i)v_i compared with == against closed forms, std against sqrt; linearity, min<=mean<=max "
                 "and convex-hull clauses asserted on the exact runs; float / NumPy-scalar streams compared with the exact result "
